@@ -491,6 +491,9 @@ func (env *Env) tr0(e ast.Expr) Term {
 		}
 		x := env.tr(e.X)
 		i := env.tr(e.Index)
+		if x.T == nil {
+			cerr("cannot index %s: its Go type is unknown (use typed(e, T))", exprString(e.X))
+		}
 		switch u := types.Unalias(x.T).Underlying().(type) {
 		case *types.Slice:
 			l := g.elemLoc(x.S, i.S, u.Elem())
@@ -884,6 +887,15 @@ func (env *Env) call(e *ast.CallExpr) Term {
 		}
 		comp, es := g.elemComp(sl.Elem())
 		return Term{fmt.Sprintf("(select %s (s_ref %s))", g.get(env.st, comp), x.S), "(Array Int " + es + ")", nil}
+	case "typed":
+		// typed(e, T): gives the Go type T to a term produced by a spec function
+		argn(2)
+		x := env.tr(e.Args[0])
+		t := env.resolveType(e.Args[1])
+		if g.d.sortOf(t) != x.Sort {
+			cerr("typed(): %s has sort %s, not that of %s", exprString(e.Args[0]), x.Sort, t)
+		}
+		return Term{x.S, x.Sort, t}
 	case "sameArray":
 		argn(2)
 		a, b := env.tr(e.Args[0]), env.tr(e.Args[1])
@@ -1108,4 +1120,17 @@ func (env *Env) lookupVar(name string) (Arg, bool) {
 	}
 	a, ok := env.vars[name]
 	return a, ok
+}
+
+func (env *Env) tryResolveType(e ast.Expr) (t types.Type) {
+	defer func() {
+		if r := recover(); r != nil {
+			if _, ok := r.(specErr); ok {
+				t = nil
+				return
+			}
+			panic(r)
+		}
+	}()
+	return env.resolveType(e)
 }
